@@ -190,6 +190,8 @@ TEXTS = {
     "en3": (["Sent 12 March 2015 14:00 EST, received ", ("d", 2), "/04/16 late"], ["en"]),
     # a hit at the very start of the calendar, then a weekday (resolved relative to it)
     "en4": (["Founded on 01/01/0001. We are open on Friday. Room ", ("n", 2)], ["en"]),
+    # the FIRST hit is relative and another hit follows, no RELATIVE_BASE given
+    "en5": (["We spoke yesterday, the report is due on ", ("d", 2), " May 2020."], ["en"]),
     # language-specific preprocessing of the text (Russian "с <number>"): hits must still be substrings of the text given
     "ru2": (["Встреча ", ("d", 2), " января с ", ("H", 2), ":00 до 12:00"], ["ru"]),
     "ru3": (["Работаем с ", ("d", 2), " января по 15 января ", ("Y", 4)], ["ru"]),
@@ -203,7 +205,7 @@ TEXTS = {
 }
 
 
-CHAINED = ("en3", "en4")       # templates whose point is that a later hit is parsed relative to an earlier one (no RELATIVE_BASE)
+CHAINED = ("en3", "en4", "en5")       # templates whose point is that a later hit is parsed relative to an earlier one (no RELATIVE_BASE)
 
 
 def h_pipeline(name, detect, with_base, add_lang=False, only=None):
